@@ -19,7 +19,7 @@ package vm
 //@   ensures tracked(old(m.Balances), account, asset) ==> f.Parts[0].Account == account && f.Parts[0].Amount != nil
 //@   ensures tracked(old(m.Balances), account, asset) ==> val(f.Parts[0].Amount) == max(0, bal(old(m.Balances), account, asset) + val(overdraft))
 //@   ensures tracked(old(m.Balances), account, asset) ==> bal(m.Balances, account, asset) == (bal(old(m.Balances), account, asset) + val(overdraft) > 0 ? 0 - val(overdraft) : bal(old(m.Balances), account, asset))
-//@   ensures forall a machine.AccountAddress, x machine.Asset :: {bal(m.Balances, a, x)} (a != account || x != asset) ==> bal(m.Balances, a, x) == bal(old(m.Balances), a, x)
+//@   ensures forall a machine.AccountAddress, x machine.Asset :: {bal(m.Balances, a, x)} {bal(old(m.Balances), a, x)} (a != account || x != asset) ==> bal(m.Balances, a, x) == bal(old(m.Balances), a, x)
 //@   ensures sameKeys(m.Balances, old(m.Balances))
 
 //@ func (m *Machine) withdrawAlways(account machine.AccountAddress, mon machine.Monetary) (f *machine.Funding, err error)
@@ -30,7 +30,7 @@ package vm
 //@   ensures err == nil && f != nil && f.Asset == mon.Asset && len(f.Parts) == 1 && f.Parts[0].Account == account && f.Parts[0].Amount == mon.Amount
 //@   ensures tracked(old(m.Balances), account, mon.Asset) ==> bal(m.Balances, account, mon.Asset) == bal(old(m.Balances), account, mon.Asset) - val(mon.Amount)
 //@   ensures !tracked(old(m.Balances), account, mon.Asset) ==> m.Balances == old(m.Balances)
-//@   ensures forall a machine.AccountAddress, x machine.Asset :: {bal(m.Balances, a, x)} (a != account || x != mon.Asset) ==> bal(m.Balances, a, x) == bal(old(m.Balances), a, x)
+//@   ensures forall a machine.AccountAddress, x machine.Asset :: {bal(m.Balances, a, x)} {bal(old(m.Balances), a, x)} (a != account || x != mon.Asset) ==> bal(m.Balances, a, x) == bal(old(m.Balances), a, x)
 //@   ensures sameKeys(m.Balances, old(m.Balances))
 
 //@ func (m *Machine) credit(account machine.AccountAddress, funding machine.Funding)
@@ -40,14 +40,14 @@ package vm
 //@   ensures unchangedExcept(m, old(m), Balances) && wfBal(m.Balances)
 //@   ensures (account != "world" && tracked(old(m.Balances), account, funding.Asset)) ==> bal(m.Balances, account, funding.Asset) == bal(old(m.Balances), account, funding.Asset) + total(funding.Parts)
 //@   ensures !(account != "world" && tracked(old(m.Balances), account, funding.Asset)) ==> m.Balances == old(m.Balances)
-//@   ensures forall a machine.AccountAddress, x machine.Asset :: {bal(m.Balances, a, x)} (a != account || x != funding.Asset) ==> bal(m.Balances, a, x) == bal(old(m.Balances), a, x)
+//@   ensures forall a machine.AccountAddress, x machine.Asset :: {bal(m.Balances, a, x)} {bal(old(m.Balances), a, x)} (a != account || x != funding.Asset) ==> bal(m.Balances, a, x) == bal(old(m.Balances), a, x)
 //@   ensures sameKeys(m.Balances, old(m.Balances))
 //@   loop 1:
 //@     index k
 //@     invariant unchangedExcept(m, old(m), Balances) && wfBal(m.Balances)
 //@     invariant tracked(m.Balances, account, funding.Asset)
 //@     invariant bal(m.Balances, account, funding.Asset) == bal(old(m.Balances), account, funding.Asset) + total_upto(funding.Parts, k)
-//@     invariant forall a machine.AccountAddress, x machine.Asset :: {bal(m.Balances, a, x)} (a != account || x != funding.Asset) ==> bal(m.Balances, a, x) == bal(old(m.Balances), a, x)
+//@     invariant forall a machine.AccountAddress, x machine.Asset :: {bal(m.Balances, a, x)} {bal(old(m.Balances), a, x)} (a != account || x != funding.Asset) ==> bal(m.Balances, a, x) == bal(old(m.Balances), a, x)
 //@     invariant sameKeys(m.Balances, old(m.Balances))
 
 //@ func (m *Machine) repay(funding machine.Funding)
@@ -55,17 +55,17 @@ package vm
 //@   requires wfBal(m.Balances)
 //@   modifies m
 //@   ensures unchangedExcept(m, old(m), Balances) && wfBal(m.Balances)
-//@   ensures forall a machine.AccountAddress :: {bal(m.Balances, a, funding.Asset)} bal(m.Balances, a, funding.Asset) == bal(old(m.Balances), a, funding.Asset) + ((a != "world" && has(old(m.Balances), a)) ? sumBy(funding.Parts, a) : 0)
-//@   ensures forall a machine.AccountAddress, x machine.Asset :: {bal(m.Balances, a, x)} x != funding.Asset ==> bal(m.Balances, a, x) == bal(old(m.Balances), a, x)
-//@   ensures forall a machine.AccountAddress :: {has(m.Balances, a)} has(m.Balances, a) == has(old(m.Balances), a)
-//@   ensures forall a machine.AccountAddress, x machine.Asset :: {tracked(m.Balances, a, x)} tracked(old(m.Balances), a, x) ==> tracked(m.Balances, a, x)
+//@   ensures forall a machine.AccountAddress :: {bal(m.Balances, a, funding.Asset)} {bal(old(m.Balances), a, funding.Asset)} bal(m.Balances, a, funding.Asset) == bal(old(m.Balances), a, funding.Asset) + ((a != "world" && has(old(m.Balances), a)) ? sumBy(funding.Parts, a) : 0)
+//@   ensures forall a machine.AccountAddress, x machine.Asset :: {bal(m.Balances, a, x)} {bal(old(m.Balances), a, x)} x != funding.Asset ==> bal(m.Balances, a, x) == bal(old(m.Balances), a, x)
+//@   ensures forall a machine.AccountAddress :: {has(m.Balances, a)} {has(old(m.Balances), a)} has(m.Balances, a) == has(old(m.Balances), a)
+//@   ensures forall a machine.AccountAddress, x machine.Asset :: {tracked(m.Balances, a, x)} {tracked(old(m.Balances), a, x)} tracked(old(m.Balances), a, x) ==> tracked(m.Balances, a, x)
 //@   loop 1:
 //@     index k
 //@     invariant unchangedExcept(m, old(m), Balances) && wfBal(m.Balances)
-//@     invariant forall a machine.AccountAddress :: {bal(m.Balances, a, funding.Asset)} bal(m.Balances, a, funding.Asset) == bal(old(m.Balances), a, funding.Asset) + ((a != "world" && has(old(m.Balances), a)) ? sumBy_upto(funding.Parts, k, a) : 0)
-//@     invariant forall a machine.AccountAddress, x machine.Asset :: {bal(m.Balances, a, x)} x != funding.Asset ==> bal(m.Balances, a, x) == bal(old(m.Balances), a, x)
-//@     invariant forall a machine.AccountAddress :: {has(m.Balances, a)} has(m.Balances, a) == has(old(m.Balances), a)
-//@     invariant forall a machine.AccountAddress, x machine.Asset :: {tracked(m.Balances, a, x)} tracked(old(m.Balances), a, x) ==> tracked(m.Balances, a, x)
+//@     invariant forall a machine.AccountAddress :: {bal(m.Balances, a, funding.Asset)} {bal(old(m.Balances), a, funding.Asset)} bal(m.Balances, a, funding.Asset) == bal(old(m.Balances), a, funding.Asset) + ((a != "world" && has(old(m.Balances), a)) ? sumBy_upto(funding.Parts, k, a) : 0)
+//@     invariant forall a machine.AccountAddress, x machine.Asset :: {bal(m.Balances, a, x)} {bal(old(m.Balances), a, x)} x != funding.Asset ==> bal(m.Balances, a, x) == bal(old(m.Balances), a, x)
+//@     invariant forall a machine.AccountAddress :: {has(m.Balances, a)} {has(old(m.Balances), a)} has(m.Balances, a) == has(old(m.Balances), a)
+//@     invariant forall a machine.AccountAddress, x machine.Asset :: {tracked(m.Balances, a, x)} {tracked(old(m.Balances), a, x)} tracked(old(m.Balances), a, x) ==> tracked(m.Balances, a, x)
 
 // ---- run.go ----------------------------------------------------------------------------------------
 
